@@ -414,7 +414,7 @@ func main() {
 			"race detection is happens-before based, so low preemption bounds already expose every unordered access pair of the visited synchronisation orders",
 			"8 senders and 4-pipeline compositions of the statement are not reached",
 		},
-		QuickBudget:    170 * time.Second,
+		QuickBudget:    300 * time.Second,
 		ThoroughBudget: 45 * time.Minute,
 	})
 	_ = strings.Join
